@@ -633,6 +633,9 @@ def flag_variants(S, rng, p):
                     fl |= b
             if not fl & (lz.TELL_NO_CHECK | lz.TELL_ANY_CHECK | lz.TELL_UNSUPPORTED_CHECK):
                 fl |= rng.choice((lz.TELL_NO_CHECK, lz.TELL_ANY_CHECK, lz.TELL_UNSUPPORTED_CHECK))
+            if s.get("expect_ret"):
+                # the verdict was fixed for this setting of LZMA_CONCATENATED (it decides whether later Streams are read)
+                fl = (fl & ~lz.CONCATENATED) | (s["args"].get("flags", 0) & lz.CONCATENATED)
             t = dict(s, args=dict(s["args"], flags=fl), cls=s["cls"] + ":flags=%d" % fl)
             out.append(t)
     return out
@@ -752,4 +755,81 @@ def first_symbol_subjects(rng, quick):
         if not quick or rng.random() < 0.5:
             add("stream_decoder_mt", x, "invalid:xz:first_symbol:second_block:" + name, dict(flags=0, threads=2),
                 ("stream_decoder_mt", dict(flags=0, threads=2), gx))
+    return S
+
+
+# ------------------------------------------------------------------------------------------------ header parses, init rejects
+BCJ_ALIGN = {5: 4, 6: 16, 7: 4, 8: 2, 9: 4, 10: 4, 11: 2}
+
+
+def init_reject_subjects(rng, quick):
+    """Blocks whose header is valid (CRC32, sizes present, known filters with well-formed properties) but whose filter
+    chain is rejected only when the Block decoder is initialised: a BCJ filter whose start offset is not a multiple of the
+    architecture's alignment.  As the first Block, a middle Block and the first Block of a second Stream; single- and
+    multi-threaded, without and with a timeout.  The format fixes the verdict: LZMA_OPTIONS_ERROR."""
+    S = []
+    t = text(rng, 1500)
+    good = dict(uncompressed=t[:600], dict_size=4096, compressed_size='auto', uncompressed_size='auto')
+    fids = list(BCJ_ALIGN)
+    if quick:
+        fids = rng.sample(fids, 3)
+    for fid in fids:
+        al = BCJ_ALIGN[fid]
+        off = al * rng.randint(1, 1000) + rng.randint(1, al - 1)
+        chain = [(fid, struct.pack("<I", off)), (0x21, b"\x04")]
+        if rng.random() < 0.5:
+            chain.insert(0, (3, b"\x01"))
+        bad = dict(uncompressed=t[600:1100], filters=chain, compressed_size='auto', uncompressed_size='auto')
+        layouts = [("first", [dict(check=1, blocks=[bad, good])]), ("middle", [dict(check=4, blocks=[good, bad, good])]),
+                   ("second_stream", [dict(check=1, blocks=[good], padding=4), dict(check=1, blocks=[bad])])]
+        for pos, desc in layouts:
+            try:
+                f, fmap = GX.build(desc)
+            except Exception:
+                continue
+            b = fmap_bounds(fmap)
+            cls = "invalid:xz:init_reject:%s:%s" % (BCJ_IDS[fid], pos)
+            for entry, a in (("stream_decoder", dict(flags=lz.CONCATENATED)),
+                             ("stream_decoder_mt", dict(flags=lz.CONCATENATED, threads=2, timeout=0)),
+                             ("stream_decoder_mt", dict(flags=lz.CONCATENATED, threads=3, timeout=20)),
+                             ("auto_decoder", dict(flags=lz.CONCATENATED))):
+                e = sub(entry, f, cls + (":timeout%d" % a["timeout"] if "timeout" in a else ""), a, b, True, 6000)
+                e["expect_ret"] = ["OPTIONS_ERROR"]
+                e["timeout"] = 40
+                S.append(e)
+    return S
+
+
+# ------------------------------------------------------------------------------------------------ internal limits
+def internal_limit_subjects(rng, quick):
+    """Coders that stop because of a limit of their own while the caller still offers input and output space: MicroLZMA
+    with a compressed size smaller than the stream (and more bytes in the buffer), the file-info decoder given more bytes
+    than the file size, a raw LZMA1 stream with known size followed by more bytes.  Whatever the verdict, it must be a
+    documented code and two consecutive calls without progress must give LZMA_BUF_ERROR."""
+    import ctypes as C
+    S = []
+    for i in range(2 if quick else 6):
+        d = payload_data(rng, rng.choice([200, 900, 3000]))
+        o = lz.lzma_opts(0, dict_size=4096)
+        e = lz.Coder()
+        if e.init("lzma_microlzma_encoder", C.byref(o)) != lz.OK:
+            continue
+        res = lz.run_coder(e, d, out_cap=len(d) * 2 + 200)
+        e.end()
+        if res["ret"] != lz.STREAM_END:
+            continue
+        comp = res["out"]; used = res["total_in"]
+        for cut in (16, 1, len(comp) - 2, len(comp) // 2):
+            cs = max(1, len(comp) - cut)
+            for extra in (b"", b"\x00" * 7 + b"tail"):
+                for exact in (1, 0):
+                    a = dict(comp_size=cs, uncomp_size=used, exact=exact, dict_size=4096)
+                    S.append(sub("microlzma_decoder", comp + extra, "invalid:microlzma:comp_size-%d:exact%d" % (cut if cut < 20 else 99, exact),
+                                 a, [cs - 1, cs, cs + 1], False, used + 4096))
+        S.append(sub("microlzma_decoder", comp + b"more", "valid:microlzma:trailing", dict(comp_size=len(comp), uncomp_size=used, exact=1, dict_size=4096),
+                     [len(comp)], False, used + 4096))
+    x = GX.encode(text(rng, 700), check=1, dict_size=4096)
+    for fs in (len(x) - 1, len(x) - 12, 20, 12):
+        e = sub("file_info_decoder", x, "invalid:xz:file_size=%d" % (fs - len(x)), dict(file_size=fs), [fs - 1, fs, 12], False, 4096)
+        S.append(e)
     return S
